@@ -65,7 +65,7 @@ Theorem C12_regex :
     typed_haystack lit h = Ok th -> typed_value lit (PStr needle) = Ok tn ->
     search_matches_h lit re_search MRegex needle h =
       (do r <- re_search needle (py_str th);
-       match r with RMatch b => Ok b | RError => Raise (PyCrash ReError) end).
+       match r with RMatch b => Ok b | RError => Raise (YPE Generic) end).
 Proof. exact sm_regex. Qed.
 Print Assumptions C12_regex.
 
@@ -78,7 +78,7 @@ Theorem C12_table :
     | SRegex =>
         search_matches_h lit re_search m needle h =
           (do r <- re_search needle (py_str th);
-           match r with RMatch b => Ok b | RError => Raise (PyCrash ReError) end)
+           match r with RMatch b => Ok b | RError => Raise (YPE Generic) end)
     end.
 Proof. exact sm_table. Qed.
 Print Assumptions C12_table.
